@@ -425,16 +425,16 @@ func RunSpecs(all []FileSpec) ([]outcome, error) {
 		return nil
 	}
 	plugin, pgg := filepath.Join(scratch, "protoc-gen-go-drpc"), filepath.Join(scratch, "protoc-gen-go")
-	if err := build("/repo", plugin, "./cmd/protoc-gen-go-drpc"); err != nil {
+	if err := build(repoDir(), plugin, "./cmd/protoc-gen-go-drpc"); err != nil {
 		return nil, err
 	}
-	if err := build("/repo", pgg, "google.golang.org/protobuf/cmd/protoc-gen-go"); err != nil {
+	if err := build(repoDir(), pgg, "google.golang.org/protobuf/cmd/protoc-gen-go"); err != nil {
 		return nil, err
 	}
 	gen := filepath.Join(scratch, "gen")
 	_ = os.MkdirAll(filepath.Join(gen, "customlib"), 0o755)
 	_ = os.WriteFile(filepath.Join(gen, "customlib", "lib.go"), []byte(customLib), 0o644)
-	gomod := "module genmod\n\ngo 1.22.0\n\nrequire (\n\tstorj.io/drpc v0.0.0\n\tverif v0.0.0\n\tgoogle.golang.org/protobuf v1.27.1\n\tgithub.com/gogo/protobuf v1.3.2\n\tgithub.com/zeebo/errs v1.2.2\n)\n\nreplace storj.io/drpc => /repo\n\nreplace verif => " + verifDir() + "\n"
+	gomod := "module genmod\n\ngo 1.22.0\n\nrequire (\n\tstorj.io/drpc v0.0.0\n\tverif v0.0.0\n\tgoogle.golang.org/protobuf v1.27.1\n\tgithub.com/gogo/protobuf v1.3.2\n\tgithub.com/zeebo/errs v1.2.2\n)\n\nreplace storj.io/drpc => " + repoDir() + "\n\nreplace verif => " + verifDir() + "\n"
 	_ = os.WriteFile(filepath.Join(gen, "go.mod"), []byte(gomod), 0o644)
 	if b, err := os.ReadFile(filepath.Join(verifDir(), "go.sum")); err == nil {
 		_ = os.WriteFile(filepath.Join(gen, "go.sum"), b, 0o644)
@@ -580,6 +580,13 @@ func RunSpecs(all []FileSpec) ([]outcome, error) {
 		}
 	}
 	return res, nil
+}
+
+func repoDir() string {
+	if d := os.Getenv("VERIF_REPO"); d != "" {
+		return d
+	}
+	return "/repo"
 }
 
 func verifDir() string {
